@@ -62,8 +62,14 @@ impl JulianDay {
   }
 
   pub fn get_solar_time(&self) -> SolarTime {
-    let mut d: isize = (self.day + 0.5) as isize;
-    let mut f: f64 = self.day + 0.5 - (d as f64);
+    // split into whole days and fraction first: `self.day + 0.5` itself can round (just below 2^21 and 2^22)
+    let w: f64 = self.day.floor();
+    let mut d: isize = w as isize;
+    let mut f: f64 = self.day - w + 0.5;
+    if f >= 1.0 {
+      f -= 1.0;
+      d += 1;
+    }
     let n: isize = d;
 
     if d >= 2299161 {
